@@ -216,6 +216,20 @@ func paramOfType(fn *ssa.Function, typeSuffix string, n int) *ssa.Parameter {
 	return nil
 }
 
+// paramOfExactType is paramOfType with an exact match of the type string.
+func paramOfExactType(fn *ssa.Function, typ string, n int) *ssa.Parameter {
+	k := 0
+	for _, pa := range fn.Params {
+		if pa.Type().String() == typ {
+			if k == n {
+				return pa
+			}
+			k++
+		}
+	}
+	return nil
+}
+
 // resultAlloc returns the variable (Alloc) holding named result idx of fn,
 // found through the loads feeding its Return instructions.
 func resultAlloc(fn *ssa.Function, idx int) *ssa.Alloc {
